@@ -87,8 +87,8 @@ def run():
     corp = Corpus(chk)
     r = common.rng("c05")
     if chk.quick:
-        pairs = corp.pairs(n_enum=160, n_random=40, salt="c05")
-        triples = corp.triples(n_enum=220, n_random=60, salt="c05s")
+        pairs = corp.pairs(n_enum=220, n_random=60, salt="c05")
+        triples = corp.triples(n_enum=360, n_random=100, salt="c05s")
         models = run_models("quick", chk, universes=[("lists", 2), ("objects", 2), ("strings", 1)])
         gtasks = generic_tasks({u: m[0] for u, m in models.items()}, True, r, 2500)
         ntasks = law_tasks(pairs, r, 2) + sym_tasks(triples)
